@@ -44,6 +44,22 @@ def run(ck: Checker):
     ck.rule('C17-4', 'configuration travels with the object: every attribute set by __init__ of ResponsiveQueue / IterableQueue is carried by __getstate__ and restored by __setstate__ in the same order (AGREE)', minimum=2)
     check_pickle_state(ck, 'C17-4', mod.cls('ResponsiveQueue'))
     check_pickle_state(ck, 'C17-4', cls)
+    ck.rule('C17-6', 'token arithmetic: the three token queues hold exactly `num_suppliers` tokens (`used.full()` IS the test "every supplier has finished") and exactly `num_suppliers` spare tokens are created (LINEAR)', minimum=7)
+    from .linear import linear_form
+
+    init = cls.method('__init__')
+    n_q = 0
+    for n in walk_deep_func(init.node):
+        if isinstance(n, ast.Assign) and isinstance(n.value, ast.Call) and dotted(n.targets[0]) in ('self._spare_lids', 'self._applied_lids', 'self._used_lids'):
+            arg = kwarg(n.value, 'maxsize') or (n.value.args[0] if n.value.args else None)
+            lf = linear_form(arg, init) if arg is not None else None
+            ok = lf is not None and lf[0] == 1 and lf[1] == 0 and lf[2] == 'num_suppliers'
+            n_q += 1
+            ck.ob('C17-6', init, n, ok, f'`{dotted(n.targets[0])}` holds exactly num_suppliers tokens' if ok else f'`{dotted(n.targets[0])}` is created with `{norm_text(arg) if arg is not None else "no bound"}`, not `num_suppliers`: `full()` no longer means "all suppliers have finished" — consumers end early or never')
+    fills = [n for n in walk_deep_func(init.node) if isinstance(n, ast.For) and isinstance(n.iter, ast.Call) and dotted(n.iter.func) == 'range' and any(isinstance(y, ast.Call) and method_of(y)[1] == 'put' and dotted(method_of(y)[0]) == 'self._spare_lids' for b in n.body for y in ast.walk(b))]
+    okf = len(fills) == 1 and len(fills[0].iter.args) == 1 and linear_form(fills[0].iter.args[0], init) is not None and linear_form(fills[0].iter.args[0], init)[:3] == (1, 0, 'num_suppliers')
+    ck.ob('C17-6', init, fills[0] if fills else init.node, okf, 'exactly num_suppliers spare tokens are created' if okf else 'the number of spare tokens created is not `num_suppliers`')
+    ck.need(n_q >= 6, f'{init.key}: only {n_q} token queue constructions found')
     ck.rule('C17-5', 'timeouts of put/get reach the underlying queue operation as given (0 = do not wait is legal): re-bound only under `is None`, never replaced through truthiness (GUARD)', minimum=3)
     from .common import check_timeout_passthrough
 
